@@ -35,7 +35,7 @@ class SegmentEnd:
         return
       elif isinstance(args[0], str):
         self.__segment = args[0][0:-1]
-        self.__end_type = args[0][-1]
+        self.__end_type = args[0][-1:]
       elif isinstance(args[0], list):
         if len(args[0]) != 2:
           raise gfapy.ArgumentError("Cannot create a SegmentEnd "+
